@@ -1,8 +1,8 @@
 INIT Init
 NEXT Next
 CONSTANTS
-  Corpus <- C22
-  MaxLen = 3
+  Corpus <- C8
+  MaxLen = 4
   Deviations = {}
 CONSTRAINT Bound
 CHECK_DEADLOCK FALSE
